@@ -69,7 +69,7 @@ def syntax_ok(dst, rels):
     return None
 
 
-def run_battery(pid, only=None, repo=None, verbose=True, jobs=4):
+def run_battery(pid, only=None, repo=None, verbose=True, jobs=8):
     repo = repo or os.environ.get('BLOCH_REPO', '/repo')
     spec = importlib.util.spec_from_file_location('m_' + pid, os.path.join(HERE, 'mutants', pid + '.py'))
     mod = importlib.util.module_from_spec(spec)
